@@ -1404,8 +1404,11 @@ mod c16 {
         }
         b.build()
     }
-    fn engine_state(start: i64) -> State {
+    /// `seeded`: starting balances given to the builder (EngineStateBuilder::balances, what SystemBuilder::balances
+    /// does): each is the FIRST accepted snapshot of its asset, stamped with the start of the session
+    fn engine_state(start: i64, seeded: &[(usize, Balance)]) -> State {
         EngineState::builder(&instruments(), DefaultGlobalData::default(), DefaultInstrumentMarketData::default)
+            .balances(seeded.iter().map(|(n, b)| barter_instrument::Keyed::new(asset_key(*n), *b)))
             .time_engine_start(time(start))
             .trading_state(TradingState::Disabled)
             .build()
@@ -1874,6 +1877,14 @@ mod c16 {
         fn balance(&mut self, asset: usize, bal: Balance, t: i64, key_by_name: bool, full: bool) -> Result<(), String>;
         /// the running returns summaries of one instrument (PnLReturns of its tear-sheet generator)
         fn returns(&self, inst: usize) -> PnLReturns;
+        /// engine route: the opening fill (and, `reduce`, the reducing fill that realises PnL) of the NEXT closed position
+        /// of a flat instrument are executed now, so that the summaries generated until it is closed see an OPEN position
+        fn preopen(&mut self, _inst: usize, _p: &Plan, _reduce: bool, _t: i64) -> Result<bool, String> { Ok(false) }
+        /// engine route: a position outside the history - opened, increased, partly reduced at another price (PnL
+        /// realised), NEVER closed: it stays open to the end of the run on an instrument that closes nothing any more
+        fn extra_open(&mut self, _inst: usize, _salt: u64, _e10: i32, _t: i64) -> Result<bool, String> { Ok(false) }
+        /// engine route: instruments with an open position that was (only opened or increased, partly reduced)
+        fn open_positions(&self) -> (u64, u64) { (0, 0) }
         /// the time of the last point of an asset's equity curve (the clock of its drawdown generator)
         fn curve_end(&self, asset: usize) -> chrono::DateTime<chrono::Utc>;
         /// (the summary projection, the ratio figures per instrument key)
@@ -2007,9 +2018,11 @@ mod c16 {
     struct EngineSut {
         e: Eng,
         trades: u64,
+        /// per instrument: fills of its next planned position already executed (0 none, 1 opened, 2 opened and reduced)
+        pre: [u8; 4],
     }
-    fn new_engine(start: i64) -> Eng {
-        let state = engine_state(start);
+    fn new_engine(start: i64, seeded: &[(usize, Balance)]) -> Eng {
+        let state = engine_state(start, seeded);
         let txs = MultiExchangeTxMap::from_iter(EXCHANGES.iter().map(|e| (*e, None)));
         Engine::new(HistoricalClock::new(time(start)), state, txs, DefaultStrategy::default(), DefaultRiskManager::default())
     }
@@ -2054,10 +2067,12 @@ mod c16 {
             if exit <= Decimal::ZERO {
                 return Err(format!("TOOL: plan has a non-positive exit price {exit}"));
             }
-            if p.opened_by_flip {
+            let pre = std::mem::take(&mut self.pre[inst]);
+            if p.opened_by_flip || pre > 0 {
                 let open = self.e.state.instruments.instrument_index(&InstrumentIndex(inst)).position.current.as_ref();
-                if !open.is_some_and(|o| o.side == p.side && o.quantity_abs == p.qty && o.price_entry_average == p.price) {
-                    return Err(format!("TOOL: the crossing fill did not leave the planned open position (C02 domain): {open:?}"));
+                let left = if pre == 2 { p.qty / Decimal::TWO } else { p.qty };
+                if !open.is_some_and(|o| o.side == p.side && o.quantity_abs == left && o.quantity_abs_max == p.qty && o.price_entry_average == p.price) {
+                    return Err(format!("TOOL: the crossing / earlier fills did not leave the planned open position (C02 domain): {open:?}"));
                 }
             } else if self.fill(inst, p.side, p.price, p.qty, p.fee_in, t1)?.is_some() {
                 return Err("TOOL: the opening fill closed a position".into());
@@ -2067,7 +2082,7 @@ mod c16 {
                 self.fill(inst, opposite(p.side), exit, p.qty + q2, Decimal::ZERO, t2)?
             } else if p.partial {
                 let half = p.qty / Decimal::TWO;
-                if self.fill(inst, opposite(p.side), exit, half, Decimal::ZERO, t1)?.is_some() {
+                if pre < 2 && self.fill(inst, opposite(p.side), exit, half, Decimal::ZERO, t1)?.is_some() {
                     return Err("TOOL: the reducing fill closed the position".into());
                 }
                 self.fill(inst, opposite(p.side), exit, half, p.fee_out, t2)?
@@ -2095,6 +2110,43 @@ mod c16 {
         }
         fn returns(&self, inst: usize) -> PnLReturns {
             self.e.state.instruments.instrument_index(&InstrumentIndex(inst)).tear_sheet.pnl_returns.clone()
+        }
+        fn preopen(&mut self, inst: usize, p: &Plan, reduce: bool, t: i64) -> Result<bool, String> {
+            if p.opened_by_flip || p.flip_leftover.is_some() && reduce || self.pre[inst] > 0
+                || self.e.state.instruments.instrument_index(&InstrumentIndex(inst)).position.current.is_some() {
+                return Ok(false);
+            }
+            if self.fill(inst, p.side, p.price, p.qty, p.fee_in, t)?.is_some() {
+                return Err("TOOL: the opening fill closed a position".into());
+            }
+            self.pre[inst] = 1;
+            if reduce && p.partial {
+                if self.fill(inst, opposite(p.side), p.exit, p.qty / Decimal::TWO, Decimal::ZERO, t)?.is_some() {
+                    return Err("TOOL: the reducing fill closed the position".into());
+                }
+                self.pre[inst] = 2;
+            }
+            Ok(true)
+        }
+        fn extra_open(&mut self, inst: usize, salt: u64, e10: i32, t: i64) -> Result<bool, String> {
+            if self.pre[inst] > 0 || self.e.state.instruments.instrument_index(&InstrumentIndex(inst)).position.current.is_some() {
+                return Ok(false);
+            }
+            // open 2 at 10, increase by 1 at 13, reduce by 1 (or 2) at 12 resp. 9: PnL is realised, a fee is paid, the rest stays open
+            let side = if salt % 2 == 0 { Side::Buy } else { Side::Sell };
+            let px = |k: i64| scaled_dec(k, e10);
+            for (sd, price, qty, fee) in [(side, px(10), Decimal::TWO, px(1) / Decimal::from(4)), (side, px(13), Decimal::ONE, Decimal::ZERO),
+                                         (opposite(side), if salt % 3 == 0 { px(9) } else { px(12) }, Decimal::from(1 + (salt / 2 % 2) as i64), Decimal::ZERO)] {
+                if self.fill(inst, sd, price, qty, fee, t)?.is_some() {
+                    return Err("TOOL: a fill of the extra position closed it".into());
+                }
+            }
+            self.pre[inst] = 9; // (never a planned position: nothing is closed on this instrument any more)
+            Ok(true)
+        }
+        fn open_positions(&self) -> (u64, u64) {
+            self.e.state.instruments.0.values().filter_map(|st| st.position.current.as_ref())
+                .fold((0, 0), |(o, r), p| if p.quantity_abs < p.quantity_abs_max { (o, r + 1) } else { (o + 1, r) })
         }
         fn curve_end(&self, asset: usize) -> chrono::DateTime<chrono::Utc> {
             self.e.state.assets.asset_index(&AssetIndex(asset)).statistics.drawdown.time_now
@@ -2133,17 +2185,17 @@ mod c16 {
         Ok(())
     }
 
-    fn new_sut(mode: &str, start: i64) -> Box<dyn Sut> {
+    fn new_sut(mode: &str, start: i64, seeded: &[(usize, Balance)]) -> Box<dyn Sut> {
         match mode {
             "direct" => Box::new(Direct {
                 inst: INSTR.iter().map(|_| TearSheetGenerator::init(time(start))).collect(),
                 assets: ASSET.iter().map(|_| TearSheetAssetGenerator::default()).collect(),
             }),
             "summary" => {
-                let s = engine_state(start);
+                let s = engine_state(start, seeded);
                 Box::new(Summary { g: TradingSummaryGenerator::init(Decimal::ZERO, time(start), time(start), &s.instruments, &s.assets) })
             }
-            "engine" => Box::new(EngineSut { e: new_engine(start), trades: 0 }),
+            "engine" => Box::new(EngineSut { e: new_engine(start, seeded), trades: 0, pre: [0; 4] }),
             m => usage(&format!("unknown mode {m}")),
         }
     }
@@ -2159,14 +2211,33 @@ mod c16 {
         // sheets with ratio figures; [13] exits delivered behind a later exit of the SAME instrument, [14] exits before the session
         // start, balance snapshots after which [15] only the free part / [16] only the total / [17] both / [18] nothing moved,
         // [19] delivered inside a full account snapshot (engine), [20] sheets for which the specification lists more than one reading
-        let mut arms = [0u64; 21];
+        // [21] first snapshots delivered by the state builder (EngineStateBuilder::balances), [22] later snapshots below such a seeded
+        // balance before anything exceeded it, [23] / [24] summaries generated through the engine while an instrument has an open
+        // position that was only opened or increased / that was partly reduced, [25] positions opened early, [26] positions never closed
+        let mut arms = [0u64; 27];
         let (mut st, mut rs) = (ErrStats::default(), RatioStats::default());
         let mut ratio_cases: std::collections::BTreeMap<String, u64> = Default::default();
         for (n, scn) in scenarios.iter().enumerate() {
             let vi = vidx(scn, n);
             let var = variant_of(scn, seed, vi);
             let evs = scn["evs"].as_array().unwrap_or_else(|| usage("scenario without evs"));
-            let mut sut = new_sut(&mode, var.start);
+            // summary / engine routes: the FIRST snapshot of about half of the assets is delivered by the builder of the engine state
+            // (EngineStateBuilder::balances, stamped with the start of the session) instead of an account event
+            let mut seeded_at: Vec<Option<usize>> = vec![None; ASSET.len()];
+            let mut seeded: Vec<(usize, Balance)> = vec![];
+            if mode != "direct" {
+                for (k, e) in evs.iter().enumerate() {
+                    if s(e, "a") == "AddBalance" && e["exp"]["assets"][s(e, "k")].get("free").is_some() {
+                        let a = asset_no(s(e, "k"));
+                        if seeded_at[a].is_none() && !evs[..k].iter().any(|x| s(x, "a") == "AddBalance" && s(x, "k") == s(e, "k")) && pick(var.salt, a as u64, 31, 2) == 0 {
+                            seeded_at[a] = Some(k);
+                            seeded.push((a, Balance::new(scaled_dec(i(e, "x"), var.e10), scaled_dec(i(e, "y"), var.e10))));
+                        }
+                    }
+                }
+            }
+            let mut seeded_peak: Vec<Option<i64>> = vec![None; ASSET.len()];
+            let mut sut = new_sut(&mode, var.start, &seeded);
             let plans = plan_scenario(evs, var);
             let mut failure = None;
             // mismatches on ratio figures do not end the run: the first of every kind is kept
@@ -2246,14 +2317,24 @@ mod c16 {
                             arms[match (t0 != total, f0 != free) { (false, true) => 15, (true, false) => 16, (true, true) => 17, (false, false) => 18 }] += 1;
                         }
                         bal_last[asset] = Some((total, free));
-                        // accepted snapshots: the exchange times of an asset increase
-                        let t_bal = 2 * step as i64 + 2;
+                        // accepted snapshots: the exchange times of an asset increase (from the start of the session on)
+                        let by_builder = seeded_at[asset] == Some(k);
+                        let t_bal = if by_builder { var.start } else { var.start + 2 * step as i64 + 2 };
                         bal_times[asset].push(t_bal);
                         let full = pick(var.salt, step, 23, 3) == 0;
-                        arms[19] += (full && mode == "engine") as u64;
+                        arms[19] += (full && mode == "engine" && !by_builder) as u64;
+                        arms[21] += by_builder as u64;
+                        match seeded_peak[asset] {
+                            _ if by_builder => seeded_peak[asset] = Some(total),
+                            Some(peak) if total < peak => arms[22] += 1,
+                            Some(peak) if total > peak => seeded_peak[asset] = None,
+                            _ => {}
+                        }
                         shown["balance"] = json!({"total": bal.total.to_string(), "free": bal.free.to_string(), "time_exchange": t_bal,
-                            "inside_full_account_snapshot": full && mode == "engine"});
-                        sut.balance(asset, bal, t_bal, by_name, full)
+                            "inside_full_account_snapshot": full && mode == "engine" && !by_builder,
+                            "delivered_by_the_engine_state_builder_at_session_start": by_builder});
+                        // (the builder has delivered it already: this event only places it in the history)
+                        if by_builder { Ok(()) } else { sut.balance(asset, bal, t_bal, by_name, full) }
                     }
                     "Generate" => {
                         arms[4] += 1;
@@ -2291,6 +2372,23 @@ mod c16 {
                 if ratios.is_some() {
                     shown["generate"] = json!({"risk_free_return": q.rf.to_string(), "interval": q.iv, "then_scaled_to": q.iw});
                 }
+                // engine route: the tear sheet is a function of the CLOSED positions only - summaries are also generated while a position
+                // is open: the next closed position of a flat instrument is opened (and partly reduced, realising PnL) early, and an
+                // instrument that closes nothing any more may get a position that is opened, increased, partly reduced and never closed
+                let applied = applied.and_then(|_| {
+                    for inst in 0..INSTR.len() {
+                        let c = |salt, m| pick(var.salt, 4 * step + inst as u64, salt, m);
+                        match (k + 1..evs.len()).find(|n| s(&evs[*n], "a") == "AddClosed" && instr_no(s(&evs[*n], "k")) == inst) {
+                            Some(n) if c(33, 3) == 0 => arms[25] += sut.preopen(inst, plans[n].as_ref().expect("planned"), c(35, 2) == 0, base_t)? as u64,
+                            None if c(37, 12) == 0 => arms[26] += sut.extra_open(inst, c(39, 1 << 16), var.e10, base_t)? as u64,
+                            _ => {}
+                        }
+                    }
+                    let (opened, reduced) = sut.open_positions();
+                    arms[23] += (opened > 0) as u64;
+                    arms[24] += (reduced > 0) as u64;
+                    Ok(())
+                });
                 let got = applied.and_then(|_| if stored { sut.persist() } else { Ok(()) }).and_then(|_| sut.generate(&q));
                 match got {
                     Err(p) if p.starts_with("TOOL:") => {
@@ -2310,6 +2408,11 @@ mod c16 {
                         }
                         actual["returns"] = Value::Object(rets);
                         for (n, (key, ..)) in ASSET.iter().enumerate() {
+                            // (a snapshot delivered by the state builder is placed in the history by the behaviour's event: until then
+                            //  the asset is not compared - events of different keys commute, Stats!Keyed)
+                            if seeded_at[n].is_some_and(|at| at > k) {
+                                actual["assets"][*key] = json!("none");
+                            }
                             if actual["assets"][*key].is_object() {
                                 let end = sut.curve_end(n);
                                 actual["assets"][*key]["points"] = match bal_times[n].iter().position(|t| time(*t) == end) {
@@ -2400,7 +2503,10 @@ mod c16 {
                          "late_exit_behind_a_later_exit_of_the_same_instrument": arms[13], "exit_before_session_start": arms[14],
                          "balance_only_free_moved": arms[15], "balance_only_total_moved": arms[16], "balance_both_moved": arms[17],
                          "balance_repeated_unchanged": arms[18], "balance_inside_full_account_snapshot": arms[19],
-                         "sheets_with_more_than_one_reading": arms[20]},
+                         "sheets_with_more_than_one_reading": arms[20],
+                         "balance_seeded_by_the_state_builder": arms[21], "balance_below_the_seeded_one_before_any_above": arms[22],
+                         "generated_with_an_opened_position": arms[23], "generated_with_a_partly_reduced_open_position": arms[24],
+                         "positions_opened_early": arms[25], "positions_never_closed": arms[26]},
             "ratio_figures": {"compared": rs.compared, "left_open_by_the_spec": rs.open, "sentinel_scaled_down": rs.sentinel_scaled_down,
                               "sheets_matching_another_reading_than_the_code's": rs.other_reading,
                               "rescaled_with_scale()": rs.rescaled, "max_error_over_tolerance": rs.max_err_over_tol.to_string(), "cases": ratio_cases}}));
